@@ -427,8 +427,12 @@ pub fn statics(bin: &str, input: &str, output: &str, dir: &str) -> Value {
 		let mut members: Vec<(String, Vec<u8>)> = inside.iter().map(|(f, c)| (f.to_string(), c.as_bytes().to_vec())).collect();
 		members.push(("c.txt.br".into(), indep::encode("brotli", b"IN:c.txt")));
 		members.push(("sub/d.txt.gz".into(), indep::encode("gzip", b"IN:sub/d.txt")));
+		// members whose recorded names POINT OUT of the archive (tar -P, or a writer that does not sanitise names): whatever key
+		// the server files them under, the request paths /../zz_out.txt, /../../zz_out2.txt resolve outside the root -> 404
+		members.push(("../zz_out.txt".into(), b"OUT:zz_out".to_vec()));
+		members.push(("../../zz_out2.txt".into(), b"OUT:zz_out2".to_vec()));
 		for (f, c) in members {
-			let name = format!("./{f}");
+			let name = if f.starts_with("../") { f.clone() } else { format!("./{f}") };
 			let mut h = vec![0u8; 512];
 			h[..name.len()].copy_from_slice(name.as_bytes());
 			h[100..107].copy_from_slice(b"0000644");
